@@ -96,6 +96,7 @@ def default_features(rng):
         "duplicate_fact": rng.random() < 0.2,
         "arity2": rng.random() < 0.6,
         "tc": rng.random() < 0.3,
+        "overload": rng.random() < 0.25,
     }
     return f
 
@@ -290,16 +291,42 @@ def gen_program(rng, feat=None, size=None):
         clauses.append({"heads": [[P(), [pn, ground_args(ar)]]], "body": []})
     defined = set(h[1][0] for c in clauses for h in c["heads"])
 
+    if feat.get("overload"):
+        # one functor with two arities: rename a predicate to the name of another one with a different arity
+        arities = {}
+        for c in clauses:
+            for _p, h in c["heads"]:
+                arities[h[0]] = len(h[1])
+        names = sorted(n for n in arities if n != "dom")
+        pairs = [(a, b) for a in names for b in names if a != b and arities[a] != arities[b] and a[0] == b[0]]
+        if pairs:
+            src, dst = rng.choice(pairs)
+
+            def ren(at):
+                if at[0] == src:
+                    at[0] = dst
+            for c in clauses:
+                for _p, h in c["heads"]:
+                    ren(h)
+                for _pos, at in c["body"]:
+                    ren(at)
+            preds[dst + "/%d" % arities[src]] = preds.get(src, (arities[src], 0))
+            renamed = (src, dst, arities[src])
+        else:
+            renamed = None
+    else:
+        renamed = None
+
     if rng.random() < 0.7:
         rng.shuffle(clauses)
 
     # ---- queries and evidence
-    qpreds = [n for n in sorted(defined) if n != "dom"]
-    dq = [n for n in qpreds if n.startswith("p")] or qpreds
+    sigs = sorted(set((h[1][0], len(h[1][1])) for c in clauses for h in c["heads"] if h[1][0] != "dom"))
+    qpreds = sigs
+    dq = [sg for sg in qpreds if sg[0].startswith("p")] or qpreds
     queries = []
     for _ in range(rng.randint(1, 3)):
-        pn = rng.choice(dq if rng.random() < 0.8 else qpreds)
-        ar = preds[pn][0]
+        pn, ar = rng.choice(dq if rng.random() < 0.8 else qpreds)
         if feat["nonground_query"] and ar and rng.random() < 0.5:
             args = [rng.choice(VARS[:ar]) if rng.random() < 0.7 else rng.choice(consts) for _ in range(ar)]
         else:
@@ -310,8 +337,8 @@ def gen_program(rng, feat=None, size=None):
     evidence = []
     if feat["evidence"]:
         for _ in range(rng.randint(1, 2)):
-            pn = rng.choice(qpreds)
-            atom = [pn, ground_args(preds[pn][0])]
+            pn, ar = rng.choice(qpreds)
+            atom = [pn, ground_args(ar)]
             if any(e[0] == atom for e in evidence):
                 continue
             evidence.append([atom, rng.random() < 0.6, rng.randrange(2)])
